@@ -133,6 +133,8 @@ SHAPE_DOCS = {
     'none': [('text/plain', PAY[0]), ('image/png', PAY[1])],
     # AddCmd with $in / $in+$out placeholders (fixed in /repo by fd040d4; ordinary members of the registry since)
     'cmdin': [('x-cmd/in', PAY[0]), ('x-cmd/in', CSS[1]), ('x-cmdio/copy', PAY[1]), ('x-cmdio/other; a=b', JSON[0])],
+    # $out only (stdin in, result file out), literal and pattern-served, with and without an extension
+    'cmdout': [('x-cmd/out', PAY[0]), ('x-cmd/out', CSS[1]), ('x-cmdout/upper', PAY[1]), ('x-cmdout/v; q=1', JSON[0])],
     # Match, then the driver invokes the returned function (no outer read hold)
     'matchL': [('text/html', HTML0[0]), ('text/html; charset=utf-8', HTML0[1])],
     'matchC': [('text/css; inline=1', CSSI[0])],
@@ -164,7 +166,7 @@ GATE_DOCS = {
     'matchG': [('application/x-gate; id=%d', PAY[1])],          # parked inside the function Match returned: no read hold at all
     'matchGre': [('x-gatere/m; id=%d', PAY[0])],
 }
-PAIR_SHAPES = ['html0', 'htmlC', 'htmlD', 'htmlS', 'htmlS3', 'css', 'cssD', 'cssi', 'js', 'json', 'xml', 'svg0', 'svg2', 'cmd', 'cmdin', 'none']
+PAIR_SHAPES = ['html0', 'htmlC', 'htmlD', 'htmlS', 'htmlS3', 'css', 'cssD', 'cssi', 'js', 'json', 'xml', 'svg0', 'svg2', 'cmd', 'cmdin', 'cmdout', 'none']
 PARK_SHAPES = sorted(GATE_DOCS) + sorted(HOLD_SHAPES)
 MAXGATE = 40
 
@@ -373,6 +375,28 @@ def mmm_scenarios(pool, rnd, quick, optsets, sid0):
                 progs, script = [[dict(mc), dict(mc)], [cc, dict(cc)]], [S(1, 1), S(2, 1), D(1, 1), D(2, 1), S(2, 2), S(1, 2), D(2, 2), D(1, 2)]
             out.append(dict(kind='sched', id='%s%d' % (sid0, len(out)), optset=rnd.choice(optsets), gomaxprocs=rnd.choice([1, 4, 16]),
                             progs=progs, script=script, pair=[msh, sh, 'mmm-' + v]))
+    return out
+
+
+COLD_SHAPES = ['js', 'jsi', 'css', 'cssD', 'cssi', 'json', 'xml', 'svg0', 'svg2', 'html0', 'htmlC', 'htmlD', 'htmlS', 'htmlM',
+               'htmlS3', 'cmd', 'cmdin', 'cmdout', 'upper', 'matchS', 'matchJs']
+
+
+def cold_scenarios(pool, rnd, quick, optsets):
+    """cold start: each scenario is the FIRST thing a fresh driver process does (no reference call before it): N
+    goroutines, released together, make their first call of one media type (directly, or below html / svg / Match)
+    at the same moment - what unsynchronised lazy initialisation of package-level state needs in order to show"""
+    out = []
+    for sh in COLD_SHAPES:
+        for rep in range(1 if quick else 3):
+            n = rnd.choice([2, 4, 8]) if not sh.startswith('cmd') else rnd.choice([2, 4])
+            progs = []
+            for g in range(n):
+                first = pool.call(rnd, sh)
+                more = [pool.call(rnd, rnd.choice(COLD_SHAPES[:15])) for _ in range(2)]
+                progs.append([first] + more)
+            out.append(dict(kind='cold', id='c%d' % len(out), optset=rnd.choice(optsets), gomaxprocs=rnd.choice([4, 16]),
+                            progs=progs, parked=[], cold=sh))
     return out
 
 
@@ -664,7 +688,10 @@ def rerun_alone(ctx, exe, pool, sc, attempts, deadline_ms=60000):
     returns (lines, rejects) of the first attempt that is rejected again, else (None, [])"""
     for a in range(attempts):
         one = dict(sc, id='r%d' % a)
-        scs = (base_scenarios([one], 'rb') if sc['kind'] not in ('cmdin', 'htmldep') else []) + [one]
+        if sc['kind'] == 'cold':
+            scs = [one] + base_scenarios([one], 'rb')      # cold start: nothing runs before it in the fresh process
+        else:
+            scs = (base_scenarios([one], 'rb') if sc['kind'] not in ('cmdin', 'htmldep') else []) + [one]
         lines = run_driver(ctx, exe, pool, scs, 'rerun', deadline_ms=deadline_ms)
         acc, rej = tlc_trace_one(ctx, [for_tlc(l) for l in lines], 'rerun', timeout=900)
         drift = [(i, w) for i, w in rej if w.startswith('DRIFT')]
@@ -695,7 +722,8 @@ NEG = [('ConcNeg_reg_noblocking', 'NoBlocking'), ('ConcNeg_reg_deadlock', 'deadl
        ('ConcNeg_nocopy_sro', 'SharedReadOnly'), ('ConcNeg_nocopy_det', 'Deterministic'),
        ('ConcNeg_nocopy_svgorder', 'Deterministic'), ('ConcNeg_loosecap_sro', 'SharedReadOnly'),
        ('ConcNeg_loosecap_det', 'Deterministic'), ('ConcNeg_cmdin_sro', 'SharedReadOnly'),
-       ('ConcNeg_cmdin_det', 'Deterministic'), ('ConcNeg_htmldep_sro', 'SharedReadOnly')]
+       ('ConcNeg_cmdin_det', 'Deterministic'), ('ConcNeg_htmldep_sro', 'SharedReadOnly'),
+       ('ConcNeg_lazy_sro', 'SharedReadOnly'), ('ConcNeg_lazy_det', 'Deterministic')]
 
 
 def model_check(ctx):
@@ -733,7 +761,7 @@ def model_check(ctx):
     negs = list(NEG) if not quick else [NEG[(ctx.seed + 3 * i) % len(NEG)] for i in range(4)]
     with ThreadPoolExecutor(max_workers=max(2, vlib.JOBS // 3)) as ex:
         futs = [ex.submit(run_pos, c) for c in pos] + [ex.submit(run_neg, i) for i in negs] + \
-               ([ex.submit(run_fixed, 'ConcNeg_cmdin_fixed')] if not quick else [])
+               ([ex.submit(run_fixed, 'ConcNeg_cmdin_fixed'), ex.submit(run_fixed, 'ConcNeg_lazy_warm')] if not quick else [])
         for f in futs:
             f.result()
     return info
@@ -817,7 +845,8 @@ def _run(ctx, exe, quick, rnd, mc_info):
                     for mt, d in lst]
     shape_calls += [dict(e='Bytes', mt=mt, doc=d, gate=0, sh=sh) for sh, b in sorted(HOLD_SHAPES.items()) for mt, d in pool.by_shape[b]]
     shapes = [dict(kind='shape', id='h%d' % o, optset=o, gomaxprocs=4, calls=shape_calls) for o in optsets]
-    everything = scheds + pairs + seqs + stress
+    colds = cold_scenarios(pool, rnd, quick, optsets)
+    everything = scheds + pairs + seqs + stress + colds
     bases = base_scenarios(everything)
     by_id = {sc['id']: sc for sc in everything + bases + shapes}
 
@@ -827,12 +856,18 @@ def _run(ctx, exe, quick, rnd, mc_info):
     chunks = [sched_all[i::max(1, nproc - 3)] for i in range(max(1, nproc - 3))]
     jobs = [('base', bases, None), ('proc2', [dict(b, id='z' + b['id'], gomaxprocs=0) for b in bases], 3),
             ('seq', seqs + shapes, None), ('stress', stress, None)] + [('sched%d' % i, c, None) for i, c in enumerate(chunks) if c]
+    for sc in colds:       # a process of its own; its reference calls are repeated AFTER it in the same process
+        after = [dict(b, id='a%s-%s' % (sc['id'], b['id'])) for b in base_scenarios([sc], 'b')]
+        for b in after:
+            by_id[b['id']] = b
+        jobs.append(('cold-' + sc['id'], [sc] + after, None))
     for sc in jobs[1][1]:
         by_id[sc['id']] = sc
     with ThreadPoolExecutor(max_workers=nproc) as ex:
         futs = [ex.submit(run_driver, ctx, exe, pool, scs, tag, 30000, pe) for tag, scs, pe in jobs]
         results = [f.result() for f in futs]
     base_lines = results[0] + results[1]
+    # base lines of the cold processes stay with their scenario (they are "repeat" lines for ConcTrace)
     _t(ctx, 'driver processes finished (%s)' % ', '.join('%s:%d lines' % (j[0], len(r)) for j, r in zip(jobs, results)))
     other = [l for r in results[2:] for l in r]
 
@@ -937,8 +972,8 @@ def _run(ctx, exe, quick, rnd, mc_info):
     for sc in scheds + pairs:
         if overlap_nontrivial(sc['script']):
             nontrivial.add(json.dumps([sc['script'], [[c['sh'] for c in p] for p in sc['progs']]]))
-    for sc in stress:
-        nontrivial.add(json.dumps(['stress', len(sc['progs']), sc['gomaxprocs'], sc['id']]))
+    for sc in stress + colds:
+        nontrivial.add(json.dumps([sc['kind'], len(sc['progs']), sc['gomaxprocs'], sc['id']]))
     ncalls = sum(1 for l in base_lines + other + pin_lines if l['ev'] in ('base', 'ret', 'done'))
     skipped = sum(1 for l in other if l['ev'] == 'end' and l['note'] == 'skipped')
     ctx.coverage['scenarios_skipped_after_a_blocked_call'] = skipped
@@ -961,7 +996,8 @@ def _run(ctx, exe, quick, rnd, mc_info):
         rule='histories = (a) TLC -simulate walks of spec/Conc.tla (3 goroutines x 2 calls, 4 x 1; eager and lazy gate release) '
              'replayed as gate schedules, (b) every ordered pair of %d media-type shapes run sequentially / on two goroutines / '
              'concurrently / beside a parked reader, plus Match-Minify-Match on every regexp-registered and literal type '
-             '(one goroutine, two goroutines, concurrently), (c) stress runs goroutines {2,8,64} x GOMAXPROCS {1,4,16} '
+             '(one goroutine, two goroutines, concurrently), (c) cold starts: one fresh driver process per media-type shape whose first action is N goroutines making their first '
+             'call of that type together (reference calls repeated afterwards in the same process), (c2) stress runs goroutines {2,8,64} x GOMAXPROCS {1,4,16} '
              'with parked readers and Match before/after, (d) one sequential pass per option set on one registry, (e) all reference '
              'calls repeated in a second process; a call is (entry point, media type, document, option set). Non-trivial = distinct '
              'scripted history in which a call returned while another goroutine was parked inside a gate or two calls were in flight '
@@ -972,7 +1008,7 @@ def _run(ctx, exe, quick, rnd, mc_info):
              'member of the registry since fix fd040d4; its former witnesses run as regression scenarios.' % len(PAIR_SHAPES),
         samples=samples,
         scripted_histories=len(scheds), pair_histories=len(pairs) - len(mmm), match_minify_match_histories=len(mmm),
-        stress_runs=len(stress),
+        stress_runs=len(stress), cold_start_processes=len(colds),
         reference_calls=sum(len(b['calls']) for b in bases), repo_test_documents=nrepo,
         shape_checks=sum(len(sc['calls']) for sc in shapes),
         calls_parked_inside_real_minifier=sum(1 for sc in scheds + pairs + stress for c in calls_of(sc) if c.get('hold')),
